@@ -81,6 +81,14 @@ class _Canon(ast.NodeTransformer):
         self.generic_visit(node)
         if not self.structure or node.keywords:
             return node
+        # D.setdefault(K, set()) / D.get(K, set()): the entry of a table whose missing entries are empty containers, i.e.
+        # what `D[K]` is for a defaultdict(set)
+        if isinstance(node.func, ast.Attribute) and node.func.attr in ("setdefault", "get") and len(node.args) == 2 and _plain(node.func.value):
+            dflt = node.args[1]
+            empty = (isinstance(dflt, ast.Call) and isinstance(dflt.func, ast.Name) and dflt.func.id in ("set", "list", "dict", "frozenset") and not dflt.args and not dflt.keywords) or \
+                (isinstance(dflt, (ast.List, ast.Set, ast.Tuple)) and not dflt.elts) or (isinstance(dflt, ast.Dict) and not dflt.keys)
+            if empty:
+                return ast.copy_location(ast.Subscript(value=node.func.value, slice=node.args[0], ctx=ast.Load()), node)
         fname = node.func.id if isinstance(node.func, ast.Name) else None
         if fname in ("map", "filter") and len(node.args) == 2 and isinstance(node.args[0], ast.Lambda):
             lam = node.args[0]
